@@ -61,7 +61,9 @@ enum verif_kind {
 	VK_DEQUEUE,        ///< a=msg, b=dest lp (message taken from the thread queue, before anything else)
 	VK_TERM_INIT,      ///< a=lp, b=predicate value at init, c=lps_to_end afterwards
 	VK_TERM_PROCESS,   ///< a=lp, b=bits of the new termination_t, c=lps_to_end afterwards
-	VK_TERM_ROLLBACK   ///< a=lp, b=bits of the old termination_t, c=keep
+	VK_TERM_ROLLBACK,  ///< a=lp, b=bits of the old termination_t, c=keep
+	VK_RECV_REMOTE,    ///< a=msg (event received from another rank, id already stripped of the colour bits)
+	VK_RECV_REMOTE_ANTI ///< a=msg (anti-message received from another rank)
 };
 
 /// The bit pattern of a double, for tracing time stamps
